@@ -173,7 +173,8 @@ def stream_histories(rng, n, length=12):
                 ops.extend(reach_state(rng, rich=False)[-2:])
             elif r < 0.27:
                 # a call cut short by a bus error is part of the history too
-                ops.append(rng.choice(['selftest', rand_request(rng)]) + ' !%d' % rng.randrange(12))
+                ops.append(rng.choice(['selftest !%d' % rng.randrange(18), 'reset !%d' % rng.randrange(2),
+                                       rand_request(rng) + ' !%d' % rng.randrange(12)]))
             elif r < 0.34:
                 ops.append('int drdy:%d fwm:%d ffull:%d orient:%d step:%d latch:%d' % tuple(rng.randrange(2) for _ in range(6)))
             else:
@@ -291,6 +292,65 @@ def stream_setter_pairs(rng, tier):
     return out
 
 
+def stream_selftest_faults(rng, tier):
+    """every interrupt enabled; self test cut at EVERY raw position (set-up, measurement, each of
+    the six restoring writes) or complete; then a parameter change of that interrupt, a no-op
+    request and the enables again"""
+    out = []
+    n = 0
+    for name, (pre, reqs) in SINGLE.items():
+        odr = {'stap': 4, 'dtap': 4}.get(name, 3)
+        for k in list(range(18)) + [None]:
+            for rq in rng.sample(reqs, min(len(reqs), 2 if tier == 'quick' else len(reqs))):
+                ops = ['acc odr:%d scale:%d osr:%d' % (odr, rng.randrange(4), rng.randrange(4))] + pre
+                ops.append('selftest' + ('' if k is None else ' !%d' % k))
+                ops += [rq, 'int', rq.split(' ')[0]]
+                hdr = 'pos=%s neg=%s' % (hexs(sample6(rng, True)), hexs(sample6(rng, False)))
+                out.append(case('sf%d' % n, 'i2c', ops, hdr))
+                n += 1
+    return out
+
+
+def stream_getters_hist(rng, tier):
+    """C17: every getter after configuration histories (a getter must not depend on the
+    recorded configuration) and on random register files"""
+    out = []
+    for i in range(150 if tier == 'quick' else 3000):
+        ops = reach_state(rng, rich=True)
+        ops += ['fifo rddis:%d' % rng.randrange(2), 'acc pm:%d' % rng.randrange(3)]
+        rng.shuffle(ops)
+        gs = [g for g in GETTERS if g not in ('data', 'unscaled')]
+        rng.shuffle(gs)
+        low = [0x90] + [rng.randrange(256) for _ in range(24)]
+        out.append(case('gh%d' % i, rng.choice(['i2c', 'spi']), ops + gs, 'low=' + hexs(low)))
+    return out
+
+
+def stream_first_requests(rng, tier):
+    """C18: first request per block on a fresh driver, every setter x boundary / every
+    enumerated argument: exactly the registers that differ from the reset values are written"""
+    out = []
+    n = 0
+    for ctor in ('i2c', 'spi', 'spi3'):
+        for b in BUILDERS:
+            for name, tys in SETTERS[b]:
+                t = tys[0]
+                if len(tys) == 1:
+                    vals = all_values(t) if (t == 'b' or t[0] == 'e') else BOUND[t] + [rand_value(rng, t) for _ in range(4)]
+                    argsets = [[v] for v in vals]
+                elif t == 'b':
+                    argsets = [[(k >> 0) & 1, (k >> 1) & 1, (k >> 2) & 1] for k in range(8)]
+                else:
+                    bs = BOUND[t][::4]
+                    argsets = [[v, 0, 0] for v in bs] + [[0, v, 0] for v in bs] + [[0, 0, v] for v in bs]
+                if ctor != 'i2c':
+                    argsets = argsets[::3]
+                for a in argsets:
+                    out.append(case('fr%d' % n, ctor, ['%s %s' % (b, setter_tok(name, a))]))
+                    n += 1
+    return out
+
+
 def stream_getters(rng, tier):
     """single-byte registers: all 256 values; multi-byte: per byte lane exhaustive + random"""
     out = []
@@ -352,8 +412,11 @@ def stream_accel(rng, tier):
                 ops.append('acc scale:%d' % rng.randrange(4))
             elif r < 0.45:
                 ops.append('acc scale:%d odr:%d' % (rng.randrange(4), rng.randrange(7)))
-            elif r < 0.55:
+            elif r < 0.5:
                 ops.append('acc scale:%d pm:%d !%d' % (rng.randrange(4), rng.randrange(3), rng.randrange(3)))
+            elif r < 0.55:
+                ops.append('acc scale:%d pm:%d src:%d osr:%d !%d' % (rng.randrange(4), rng.randrange(3), rng.randrange(3),
+                                                                   rng.randrange(4), rng.randrange(4)))
             elif r < 0.62:
                 ops.append('int stap:%d gen1:%d' % (rng.randrange(2), rng.randrange(2)))
             elif r < 0.68:
@@ -512,7 +575,7 @@ def stream_fifo_wf(rng, tier):
             n += 1
     # random long streams, every truncation point of a last frame
     for i in range(300 if tier == 'quick' else 5000):
-        specs = [rand_frame(rng) for _ in range(rng.choice([1, 2, 5, 20, 60, 200]))]
+        specs = [rand_frame(rng) for _ in range(rng.choice([1, 2, 5, 20, 60, 200, 400, 700]))]
         r = rng.random()
         if r < 0.3:
             t = ('none',)
@@ -857,7 +920,7 @@ def raw_kinds(journal_field):
             for t in journal_field.split(' ') if t and not (t[0] == 'd' and t[1:].isdigit())]
 
 
-def stream_faults_from(base_cases, base_obs, rng, tier, recover=True, data_only=False):
+def stream_faults_from(base_cases, base_obs, rng, tier, recover=True, data_only=False, double=False):
     """C15 / C16 / C20: for the last operation of every base case, one case per raw-operation
     index k failing, followed by recovery requests.  `base_obs` are fault-free observations
     (they tell how many raw operations the operation performs)."""
@@ -876,10 +939,18 @@ def stream_faults_from(base_cases, base_obs, rng, tier, recover=True, data_only=
             ks = [k for k in ks if kinds[k] == 'd']
         if tier == 'quick' and len(ks) > 12:
             ks = sorted(rng.sample(ks, 12))
+        ks = [str(k) for k in ks]
+        if double:
+            # two failures in one call: a data operation AND the chip-select release after it
+            kinds = raw_kinds(obs[-1].split(';')[1])
+            dk = [k for k in range(nraw) if kinds[k] == 'd' and k + 1 <= nraw]
+            if len(dk) > 4:
+                dk = sorted(rng.sample(dk, 4))
+            ks += ['%d,%d' % (k, k + 1) for k in dk] + ['%d,%d' % (k, k + 2) for k in dk[:2]]
         for k in ks:
             head = secs[0].split(' ')
             head[0] = 'e%d' % n
-            ops = secs[1:-1] + [last + ' !%d' % k]
+            ops = secs[1:-1] + [last + ' !%s' % k]
             if recover:
                 b = last.split(' ')[0]
                 # recovery: retry, re-assert every enable, rewrite the block
